@@ -16,6 +16,9 @@ import traceback
 ROOT = os.path.dirname(os.path.dirname(os.path.abspath(__file__)))
 sys.path.insert(0, ROOT)
 KNOWN_FILE = os.path.join(ROOT, "known_findings.json")
+REPO_DIR = os.environ.get("VERIF_REPO", "/repo")       # tree under check (seedcheck.sh points this at a scratch copy)
+OUT = os.environ.get("VERIF_OUT", ROOT)                  # where evidence/ and replays/ are written
+sys.path.insert(0, REPO_DIR)                              # the run-time layer imports amr_kitchen from the same tree
 NPROC = int(os.environ.get("VERIF_NPROC", "16"))
 
 
@@ -128,7 +131,7 @@ def run_scenarios(modname, scen, timeout=300, workers=4):
 
 
 def write_replay(prop, name, payload):
-    d = os.path.join(ROOT, "replays", prop)
+    d = os.path.join(OUT, "replays", prop)
     os.makedirs(d, exist_ok=True)
     h = hashlib.sha256(json.dumps(payload, sort_keys=True, default=str).encode()).hexdigest()[:10]
     safe = "".join(c if c.isalnum() or c in "._-" else "_" for c in name)[:80]
@@ -238,7 +241,7 @@ def check_property(prop, tier, seed, replay=None):
         applicable = True
         for f, a, b in overrides:
             try:
-                if a not in open(os.path.join(os.environ.get("VERIF_REPO", "/repo"), f)).read():
+                if a not in open(os.path.join(REPO_DIR, f)).read():
                     applicable = False
             except OSError:
                 applicable = False
@@ -374,8 +377,8 @@ def check_property(prop, tier, seed, replay=None):
     ev = {"property_id": prop, "tier": tier, "seed": seed, "level": level, "coverage": cov,
           "assumptions": sorted(assumptions), "wall_s": round(time.time() - t_start, 2),
           "violations": len(violations)}
-    os.makedirs(os.path.join(ROOT, "evidence"), exist_ok=True)
-    json.dump(ev, open(os.path.join(ROOT, "evidence", f"{prop}.json"), "w"), indent=1, default=str)
+    os.makedirs(os.path.join(OUT, "evidence"), exist_ok=True)
+    json.dump(ev, open(os.path.join(OUT, "evidence", f"{prop}.json"), "w"), indent=1, default=str)
     for ln in lines:
         print(ln)
     print(f"[{prop}] tier={tier} obligations={n_obl} discharged={n_dis} skeleton={s_dis}/{s_obl} rt_scenarios={len(rt)} rt_failed={len(rt_fail)} "
@@ -396,6 +399,9 @@ def main(argv):
         os.environ.setdefault("PYVC_Z3_MS", "40000")       # read by pyvc.vc at import (first import happens below)
         os.environ.setdefault("PYVC_CVC5_MS", "20000")
     try:
+        import amr_kitchen
+        if not os.path.realpath(amr_kitchen.__file__).startswith(os.path.realpath(REPO_DIR) + os.sep):
+            raise RuntimeError(f"run-time layer would import {amr_kitchen.__file__}, not the tree under check {REPO_DIR}")
         rc = check_property(a.prop, a.tier, seed, a.replay)
     except Exception:
         print(f"CHECKER-ERROR property={a.prop} {traceback.format_exc()[-2000:]}")
